@@ -45,7 +45,7 @@ func kernelTolerated() bool {
 		_, T, perr, terr, panicked := build(kernelProbe)
 		present := false
 		if perr == nil && terr == nil && panicked == nil && T != nil {
-			acc, derr := drive(T, []string{"a"}, nil)
+			acc, _, derr := drive(T, []string{"a"}, nil)
 			present = acc || derr != nil
 		}
 		kernelKnown = rec.Known(kernelKey, present)
@@ -74,9 +74,11 @@ func build(src string) (sp *spec.Spec, T *lr.ParsingTable, perr, terr, panicked 
 	return
 }
 
-// drive is the textbook shift-reduce algorithm over emerge's table.
-func drive(T *lr.ParsingTable, w []string, onReduce func(*grammar.Production)) (bool, error) {
+// drive is the textbook shift-reduce algorithm over emerge's table.  If render is set, a value stack is kept:
+// a shifted terminal is its own name, a reduction renders the values of the body.
+func drive(T *lr.ParsingTable, w []string, render func(p *grammar.Production, args []string) string) (bool, string, error) {
 	stack := []lr.State{0}
+	var vals []string
 	i := 0
 	for steps := 0; steps < 10000; steps++ {
 		a := grammar.Endmarker
@@ -86,35 +88,53 @@ func drive(T *lr.ParsingTable, w []string, onReduce func(*grammar.Production)) (
 		act, err := T.ACTION(stack[len(stack)-1], a)
 		if err != nil {
 			if _, conflict := err.(*lr.ConflictError); conflict {
-				return false, fmt.Errorf("the table handed out without error still has a conflict: %v", err)
+				return false, "", fmt.Errorf("the table handed out without error still has a conflict: %v", err)
 			}
-			return false, nil
+			return false, "", nil
 		}
 		switch act.Type {
 		case lr.SHIFT:
 			stack = append(stack, act.State)
+			vals = append(vals, w[i])
 			i++
 		case lr.REDUCE:
 			n := len(act.Production.Body)
 			if n > len(stack)-1 {
-				return false, fmt.Errorf("reduce %s pops more states than the stack holds", act.Production)
+				return false, "", fmt.Errorf("on input %v the table reduces by %s with only %d symbols on the stack (a transition leads to a wrong state)", w, act.Production, len(stack)-1)
 			}
 			stack = stack[:len(stack)-n]
 			nx, gerr := T.GOTO(stack[len(stack)-1], act.Production.Head)
 			if gerr != nil {
-				return false, fmt.Errorf("GOTO missing after reduce %s: %v", act.Production, gerr)
+				return false, "", fmt.Errorf("GOTO missing after reduce %s: %v", act.Production, gerr)
 			}
 			stack = append(stack, nx)
-			if onReduce != nil {
-				onReduce(act.Production)
+			v := ""
+			if render != nil {
+				v = render(act.Production, vals[len(vals)-n:])
 			}
+			vals = append(vals[:len(vals)-n], v)
 		case lr.ACCEPT:
-			return i == len(w), nil
+			v := ""
+			if len(vals) == 1 {
+				v = vals[0]
+			}
+			return i == len(w), v, nil
 		default:
-			return false, nil
+			return false, "", nil
 		}
 	}
-	return false, fmt.Errorf("the driver does not terminate on %v", w)
+	return false, "", fmt.Errorf("the driver does not terminate on %v", w)
+}
+
+func renderExpr(p *grammar.Production, args []string) string {
+	switch {
+	case len(args) == 1:
+		return args[0]
+	case len(args) == 3 && args[0] == "(":
+		return "(" + args[1] + ")"
+	default:
+		return "[" + strings.Join(args, " ") + "]"
+	}
 }
 
 // ---------- plain grammars ----------
@@ -156,7 +176,7 @@ func checkPlain(g *ref.Grammar, src string, n int) (nontrivial bool, cls string,
 	}
 	L := ref.CFGLanguages(g.CFG(), n)["start"]
 	for _, w := range ref.AllStrings(g.Terms, n) {
-		acc, derr := drive(T, w, nil)
+		acc, _, derr := drive(T, w, nil)
 		if derr != nil {
 			return false, cls, fmt.Errorf("%v\nspecification:\n%s", derr, src)
 		}
@@ -337,13 +357,33 @@ type opGrammar struct {
 	Levels   [][]string // each level: assoc followed by operators; earlier level binds tighter
 	Missing  string     // operator left without a directive ("" = fully declared)
 	DupInLvl bool
+	Grouped  bool // levels with two binary operators are written as one grouped production with a rule handle
 }
 
 func (o *opGrammar) text() string {
 	var b strings.Builder
 	b.WriteString("grammar ops;\n")
+	isBinary := map[string]bool{}
+	for _, op := range o.Binary {
+		isBinary[op] = true
+	}
+	grouped := map[string]bool{}
+	var alts []string
 	for _, lvl := range o.Levels {
 		b.WriteString(lvl[0])
+		var bins []string
+		for _, op := range lvl[1:] {
+			if isBinary[op] {
+				bins = append(bins, op)
+			}
+		}
+		if o.Grouped && len(bins) == 2 {
+			// the level's binary operators are written as one grouped production; the rule handle lists the
+			// alternatives in the opposite order
+			fmt.Fprintf(&b, " <start = start (%q | %q) start>", bins[1], bins[0])
+			alts = append(alts, fmt.Sprintf("start (%q | %q) start", bins[0], bins[1]))
+			grouped[bins[0]], grouped[bins[1]] = true, true
+		}
 		for _, op := range lvl[1:] {
 			fmt.Fprintf(&b, " %q", op)
 		}
@@ -352,9 +392,10 @@ func (o *opGrammar) text() string {
 		}
 		b.WriteString("\n")
 	}
-	var alts []string
 	for _, op := range o.Binary {
-		alts = append(alts, fmt.Sprintf("start %q start", op))
+		if !grouped[op] {
+			alts = append(alts, fmt.Sprintf("start %q start", op))
+		}
 	}
 	for _, op := range o.Prefix {
 		alts = append(alts, fmt.Sprintf("%q start", op))
@@ -411,23 +452,7 @@ func checkOperator(o *opGrammar, src string, n int) error {
 	terms := append(append(append([]string{}, o.Binary...), o.Prefix...), "(", ")", "n")
 	for _, w := range exprStrings(terms, n) {
 		want, ok := ref.ParseExpr(w, binary, prefix, []string{"n"})
-		var stack []string
-		acc, derr := drive(T, w, func(p *grammar.Production) {
-			k := len(p.Body)
-			switch {
-			case k == 1:
-				stack = append(stack, "n")
-			case k == 2:
-				x := stack[len(stack)-1]
-				stack = append(stack[:len(stack)-1], "["+p.Body[0].Name()+" "+x+"]")
-			case p.Body[0].Name() == "(":
-				x := stack[len(stack)-1]
-				stack = append(stack[:len(stack)-1], "("+x+")")
-			default:
-				l, r := stack[len(stack)-2], stack[len(stack)-1]
-				stack = append(stack[:len(stack)-2], "["+l+" "+p.Body[1].Name()+" "+r+"]")
-			}
-		})
+		acc, got, derr := drive(T, w, renderExpr)
 		if derr != nil {
 			return fmt.Errorf("%v\nspecification:\n%s", derr, src)
 		}
@@ -435,10 +460,6 @@ func checkOperator(o *opGrammar, src string, n int) error {
 			return fmt.Errorf("the expression [%s] is a sentence: %v, but the table accepts it: %v\nspecification:\n%s", strings.Join(w, " "), ok, acc, src)
 		}
 		if acc {
-			got := ""
-			if len(stack) == 1 {
-				got = stack[0]
-			}
 			if got != want {
 				return fmt.Errorf("the expression [%s] is parsed as %s, the declared precedence (earlier line binds tighter) and associativity dictate %s\nspecification:\n%s", strings.Join(w, " "), got, want, src)
 			}
@@ -486,12 +507,13 @@ func genOps(t *rapid.T) *opGrammar {
 		i += k
 	}
 	o.DupInLvl = rapid.IntRange(0, 5).Draw(t, "dup") == 0
+	o.Grouped = rapid.IntRange(0, 2).Draw(t, "grouped") == 0
 	return o
 }
 
 func TestOperatorGrammars(t *testing.T) {
 	rec.Rule(rule)
-	rec.Assume("@none levels are not generated for binary operators (the dependency reports a same-level @none clash as unresolved, which the property allows); rule handles are not used in operator grammars")
+	rec.Assume("@none levels are not generated for binary operators (the dependency reports a same-level @none clash as unresolved, which the property allows); rule handles are used for grouped operator levels only (productions without terminals, the documented use)")
 	rec.Check(t, 120, 5000, func(t *rapid.T) {
 		o := genOps(t)
 		src := o.text()
@@ -501,6 +523,9 @@ func TestOperatorGrammars(t *testing.T) {
 		}
 		if len(o.Prefix) > 0 {
 			cls = append(cls, "prefix_operator")
+		}
+		if o.Grouped && strings.Contains(src, "<start") {
+			cls = append(cls, "grouped_level_with_rule_handle")
 		}
 		rec.Case(src, len(o.Levels) >= 2 || o.Missing != "", cls...)
 		rec.Sample("ops-"+strings.Join(cls, ","), src)
